@@ -80,7 +80,7 @@ class NarwhalsMaterializer(FormulaMaterializer):
             values = drop_nulls(values, indices=drop_rows)
         if spec.output == "sparse":
             return spsparse.csc_matrix(
-                numpy.array(values).reshape((values.shape[0], 1))
+                numpy.array(getattr(values, "__wrapped__", values)).reshape((-1, 1))
             )
         return values
 
